@@ -129,27 +129,30 @@ GEN_SOURCES = ["fixed-buffer/src/lib.rs", "fixed-buffer/src/deframe_line.rs", "f
                "fixed-buffer-tokio/src/async_read_write_take.rs"]
 
 
-def gen_models():
+def gen_models(repo=None, coqdir=None):
     """tie T1 for behaviour: re-translate the modelled functions of /repo's working tree into coq/Gen/*Gen.v
     (rs2v ast -> vlib/translate.py).  A definition Coq rejects is commented out (with everything that then no longer
     compiles), so that one untranslatable function breaks exactly the equalities that depend on it.
     Returns {file: [(function, status, detail)]}."""
     from . import translate_fb
     exe = rs2v()
+    repo_ = repo or REPO
+    coq_ = coqdir or COQ
     os.makedirs(os.path.join(BUILD, "tmp"), exist_ok=True)
-    astp = os.path.join(BUILD, "tmp", "ast.json")
-    srcs = [os.path.join(REPO, p) for p in GEN_SOURCES if os.path.exists(os.path.join(REPO, p))]
+    astp = os.path.join(BUILD, "tmp", "ast.json" if coqdir is None else "ast_scratch.json")
+    srcs = [os.path.join(repo_, p) for p in GEN_SOURCES if os.path.exists(os.path.join(repo_, p))]
     rc, out = sh([exe, "ast", astp] + srcs)
     if rc != 0:
         raise BuildError("rs2v ast (the source does not parse)", out)
-    gdir = os.path.join(COQ, "Gen")
+    gdir = os.path.join(coq_, "Gen")
     os.makedirs(gdir, exist_ok=True)
     report = translate_fb.main(astp, gdir)
-    coq_makefile()
+    if coqdir is None:
+        coq_makefile()
     for name in report:
         path = os.path.join(gdir, name + ".v")
         for _ in range(40):
-            rc, out = sh(["make", "Gen/%s.vo" % name], cwd=COQ)
+            rc, out = sh(["make", "Gen/%s.vo" % name], cwd=coq_)
             if rc == 0:
                 break
             m = re.search(r'File "\./Gen/%s\.v", line (\d+)' % name, out)
@@ -166,15 +169,18 @@ def gen_models():
             open(path, "w").write("\n".join(lines))
             report[name] = [((f, "ill-typed", err) if st == "translated" and (d == fn or d + "_body" == fn) else (f, st, d))
                             for (f, st, d) in report[name]]
-    json.dump(report, open(os.path.join(BUILD, "tmp", "gen_report.json"), "w"), indent=1)
+    if coqdir is None:
+        json.dump(report, open(os.path.join(BUILD, "tmp", "gen_report.json"), "w"), indent=1)
     return report
 
 
-def gen_eq(names):
+def gen_eq(names, coqdir=None):
     """make the equalities GenEq/<name>.vo (keep going); returns {name: None | error text}"""
     if not names:
         return {}
-    coq_makefile()
+    COQ = coqdir or globals()["COQ"]
+    if coqdir is None:
+        coq_makefile()
     targets = ["GenEq/%s.vo" % n for n in names]
     rc, out = sh(["timeout", "1200", "make", "-k", "-j16"] + targets, cwd=COQ)
     res = {}
